@@ -117,7 +117,17 @@ def eval_attr(model, value, pvec):
         f = ca.Function("attr", [param_vector_symbol(model)], [value])
         return flat_colmajor(f(ca.DM([float(p) for p in pvec])))
     if isinstance(value, (list, tuple)):
-        return flat_colmajor(ca.DM(value))
+        try:
+            return flat_colmajor(ca.DM(value))
+        except Exception:
+            pass
+        # a (nested) Python list with symbolic elements: element by element, column-major
+        rows = [list(r) for r in value] if value and isinstance(value[0], (list, tuple)) else [[x] for x in value]
+        out = []
+        for j in range(len(rows[0])):
+            for i in range(len(rows)):
+                out.extend(eval_attr(model, rows[i][j], pvec))
+        return out
     if isinstance(value, ca.DM):
         return flat_colmajor(value)
     return [of_float(value)]
